@@ -1,7 +1,7 @@
 (* C06 - every key-value backend behaves like the one reference storage semantics.
    Statements only; proofs are `exact` into Storage/SpecLaws.v and C06_Storage/Proofs.v. *)
 From Coq Require Import List NArith ZArith Lia.
-From V Require Import Lib.Lex Lib.SMap Lib.Check Storage.Spec Storage.SpecLaws Gen.Params C06_Storage.Model C06_Storage.Proofs C06_Storage.Scan.
+From V Require Import Lib.Lex Lib.SMap Lib.Check Storage.Spec Storage.SpecLaws Gen.Params C06_Storage.Model C06_Storage.Proofs C06_Storage.Scan C06_Storage.Link.
 Import ListNotations.
 Local Open Scope Z_scope.
 
@@ -101,6 +101,12 @@ Theorem bbolt_live_view : forall ops,
   forall pk cc, okcc cc -> bb_live b' pk cc = lookup (snd s') (fst s') pk cc.
 Proof. exact (fun ops => bbolt_live_view_proved ops ([], 0) bb_init R_init). Qed.
 
+(* Link: on every observed history (over clustering columns other than {0x00}) on which a backend
+   agrees with its model, the observed outputs pass the oracle `satisfies`, i.e. equal the reference
+   wherever the interface does not leave them open. *)
+Theorem agrees_implies_satisfies : forall t, Forall cc_ok_op (t_ops t) -> agrees t = true -> satisfies t = true.
+Proof. exact agrees_implies_satisfies_proved. Qed.
+
 (* the restriction to clustering columns other than {0x00} is necessary: known finding F2 *)
 Example bbolt_null_key_refuted :
   exists ops, run_bb bb_init ops <> run_spec ([], 0) ops /\ Forall point_op ops.
@@ -138,3 +144,4 @@ Print Assumptions ttl_visible_until_expiry.
 Print Assumptions bbolt_refines_reference.
 Print Assumptions bbolt_refines_reference_partial.
 Print Assumptions bbolt_live_view.
+Print Assumptions agrees_implies_satisfies.
